@@ -180,7 +180,7 @@ def child_history(spec, ops):
                     armed = None
                     f = op.get("fault")
                     if f is not None and f.get("k"):
-                        armed = (f["seam"], f["k"])
+                        armed = (f["seam"], f["k"], f.get("exc"))
                     keep = []
                     outs.append(_do_parse(p, rec, op, armed, keep))
                     if keep:
@@ -401,7 +401,8 @@ def gen_run(rng, tier):
         if (b["kind"] == "glr" or b["opts"].get("build_tree")) and rng.random() < 0.5:
             op["mode"] = "call_actions"
         if fault:
-            op["fault"] = {"seam": rng.choice(seams), "frac": rng.random()}
+            op["fault"] = {"seam": rng.choice(seams), "frac": rng.random(),
+                           "exc": rng.choice(peers.FAULT_EXC_NAMES)}
         return op
 
     while len(ops) < n:
